@@ -69,7 +69,6 @@ struct Hideset {
 static HashMap macros;
 static CondIncl *cond_incl;
 static HashMap pragma_once;
-static int include_next_idx;
 
 static Token *preprocess2(Token *tok);
 static Macro *find_macro(Token *tok);
@@ -738,15 +737,28 @@ char *search_include_paths(char *filename) {
     if (!file_exists(path))
       continue;
     hashmap_put(&cache, filename, path);
-    include_next_idx = i + 1;
     return path;
   }
   return NULL;
 }
 
-static char *search_include_next(char *filename) {
-  for (; include_next_idx < include_paths.len; include_next_idx++) {
-    char *path = format("%s/%s", include_paths.data[include_next_idx], filename);
+// Search a file in the include directories that follow the one in
+// which the current file `cur_file` was found.
+static char *search_include_next(char *filename, char *cur_file) {
+  int i = 0;
+  for (; i < include_paths.len; i++) {
+    char *dir = include_paths.data[i];
+    int len = strlen(dir);
+    if (!strncmp(dir, cur_file, len) && cur_file[len] == '/')
+      break;
+  }
+
+  // If the current file was not found through the search path,
+  // all directories are searched.
+  i = (i < include_paths.len) ? i + 1 : 0;
+
+  for (; i < include_paths.len; i++) {
+    char *path = format("%s/%s", include_paths.data[i], filename);
     if (file_exists(path))
       return path;
   }
@@ -931,7 +943,7 @@ static Token *preprocess2(Token *tok) {
     if (equal(tok, "include_next")) {
       bool ignore;
       char *filename = read_include_filename(&tok, tok->next, &ignore);
-      char *path = search_include_next(filename);
+      char *path = search_include_next(filename, start->file->name);
       tok = include_file(tok, path ? path : filename, start->next->next);
       continue;
     }
